@@ -68,3 +68,29 @@ package goja
 //@   ensures x != nil && y != nil && !specIsUndefined(x) && !specIsUndefined(y) && old(a.compare != nil) && !(f == 0 && math.Signbit(f)) ==> (result < 0) == (f < 0) && (result > 0) == (f > 0) [comparator-sign]
 // Known finding (kept by the existing test TestSortComparatorReturnValueNegZero): a comparator result of -0 is treated as "less".
 //@   ensures x != nil && y != nil && !specIsUndefined(x) && !specIsUndefined(y) && old(a.compare != nil) && f == 0 && math.Signbit(f) ==> result == 0 [comparator-negzero-means-equal]
+
+// ---- dense storage: slots between len(values) and cap(values) are holes (nil). expand() grows
+// the array by re-slicing and relies on it; every function that shrinks values must keep it.
+//@ define denseTailNil = forall k int :: a != nil && len(a.values) <= k && k < cap(a.values) ==> a.values[:cap(a.values)][k] == nil
+//@ typeinvq *arrayObject a @denseTailNil
+//@ typeinv *arrayObject specDenseWF
+
+// Assumed (amortised growth policy, loop not verified): the new capacity covers the new size.
+//@ func growCap
+//@   props C07
+//@   trusted
+//@   ensures result >= newSize [covers]
+//@   assigns nothing
+
+//@ func (*arrayObject).expand
+//@   props C07
+//@   requires a != nil
+//@   requires @denseTailNil
+//@   ensures @denseTailNil [tail-stays-nil]
+//@   ensures forall k int :: result && old(len(a.values)) <= k && k < len(a.values) ==> a.values[k] == nil [new-slots-are-holes]
+//@   ensures forall k int :: result && 0 <= k && k < old(len(a.values)) ==> same(a.values[k], old(a.values[k])) [old-slots-kept]
+
+//@ func (*Runtime).arrayproto_pop
+//@   props C07
+//@   exitvars a *arrayObject
+//@   ensures @denseTailNil [tail-stays-nil]
